@@ -271,7 +271,10 @@ func (p *Parser) parseBuffer(buf []byte, last bool) error {
 			}
 		case numComma:
 			p.add(p.num.AsNode())
-			if 0 < len(p.starts) && p.starts[len(p.starts)-1] == -1 {
+			if len(p.starts) == 0 {
+				return p.newError(off, "unexpected comma")
+			}
+			if p.starts[len(p.starts)-1] == -1 {
 				p.mode = keyMap
 			} else {
 				p.mode = commaMap
